@@ -116,14 +116,6 @@ Proof.
   - intros ->. subst ty. rewrite Hc in Hv. cbn in Hv. discriminate.
 Qed.
 
-(** a result that is not a panic (nor fuel exhaustion) and whose value satisfies [P] *)
-Definition safe_res {A} (P : A -> Prop) (r : res A) : Prop :=
-  match r with Ok a => P a | Err => True | _ => False end.
-
-Lemma safe_bind {A B} (P : A -> Prop) (Q : B -> Prop) (r : res A) (f : A -> res B) :
-  safe_res P r -> (forall a, P a -> safe_res Q (f a)) -> safe_res Q (bind r f).
-Proof. destruct r; cbn [safe_res bind]; intros H Hf; try exact H. apply Hf, H. Qed.
-
 Lemma r_padded_ok buf : 8 <= len buf -> r_padded buf = Ok (let l := unbe (take 4 (drop 4 buf)) in l + pad8 l).
 Proof. intros H. unfold r_padded. rewrite r_len_ok by exact H. reflexivity. Qed.
 
@@ -225,4 +217,92 @@ Proof.
   eapply safe_bind; [exact Hs|]. intros sub Hsub.
   eapply safe_bind; [apply Hf, Hsub|]. intros r _.
   eapply safe_bind; [apply r_next_safe, Hw|]. intros b' Hb'. exact Hb'.
+Qed.
+
+(** ** Scripts: no operation issued through the Decoder API on a validated reader panics,
+    whatever the bytes and whatever the (error-respecting) sequence of operations *)
+Lemma emit_safe {A} (r : res (A * list Z)) (mk : A -> rout) :
+  (forall a, mk a <> RPanic) ->
+  safe_res (fun p => wfbuf (snd p)) r ->
+  ~ In RPanic (fst (emit r mk)) /\ (forall b, snd (emit r mk) = Some b -> wfbuf b).
+Proof.
+  intros Hmk Hs. destruct r as [[v b]| | |]; cbn [safe_res] in Hs; try contradiction; cbn [emit fst snd].
+  - split; [intros [E|[]]; exact (Hmk _ E) | intros b' E; injection E as <-; exact Hs].
+  - split; [intros [E|[]]; discriminate | intros b' E; discriminate].
+Qed.
+
+Lemma run_ops_safe fuel : forall ops buf, wfbuf buf ->
+  ~ In RPanic (fst (run_ops fuel ops buf)) /\ (forall b, snd (run_ops fuel ops buf) = Some b -> wfbuf b).
+Proof.
+  induction fuel as [|f IH]; intros ops buf Hw; cbn [run_ops].
+  - split; [intros [] | discriminate].
+  - destruct ops as [|op rest].
+    { split; [intros [] | intros b E; injection E as <-; exact Hw]. }
+    (* one step *)
+    assert (Hstep : forall step : list rout * option (list Z),
+      (~ In RPanic (fst step) /\ (forall b, snd step = Some b -> wfbuf b)) ->
+      ~ In RPanic (fst (match snd step with
+                        | None => step
+                        | Some b => let more := run_ops f rest b in (fst step ++ fst more, snd more)
+                        end)) /\
+      (forall b, snd (match snd step with
+                      | None => step
+                      | Some b0 => let more := run_ops f rest b0 in (fst step ++ fst more, snd more)
+                      end) = Some b -> wfbuf b)).
+    { intros [outs [b0|]] [Hn Hb]; cbn [fst snd] in *.
+      - destruct (IH rest b0 (Hb _ eq_refl)) as [Hn2 Hb2]. split.
+        + rewrite in_app_iff. tauto.
+        + exact Hb2.
+      - split; [exact Hn | discriminate]. }
+    apply Hstep. clear Hstep.
+    assert (HN : forall z, RNum z <> RPanic) by discriminate.
+    assert (HB : forall z, RBool z <> RPanic) by discriminate.
+    assert (HS : forall z, RStr z <> RPanic) by discriminate.
+    destruct op as [| | |tag|tag|tag|tag|tag|tag|tag|tag|tag|tag body].
+    + (* Tag *) apply emit_safe; [exact HN|]. destruct (Z.eq_dec (len buf) 0) as [E0|Hne].
+      * destruct buf; [exact Hw | cbn in E0; lia].
+      * destruct (valid_facts buf Hw Hne) as (H8 & _). destruct (r_tag_ok buf H8) as [t Et]. rewrite Et. exact Hw.
+    + (* Type *) apply emit_safe; [exact HN|]. destruct (Z.eq_dec (len buf) 0) as [E0|Hne].
+      * destruct buf; [exact Hw | cbn in E0; lia].
+      * destruct (valid_facts buf Hw Hne) as (H8 & _). rewrite r_type_ok by exact H8. exact Hw.
+    + (* Next *) apply emit_safe; [discriminate|]. eapply safe_bind; [apply r_next_safe, Hw|]. intros b Hb. exact Hb.
+    + apply emit_safe; [exact HN | apply r_integer_safe, Hw].
+    + apply emit_safe; [exact HN | apply r_long_safe, Hw].
+    + apply emit_safe; [exact HN | apply r_big_safe, Hw].
+    + apply emit_safe; [exact HN | apply r_enum_safe, Hw].
+    + apply emit_safe; [exact HB | apply r_bool_safe, Hw].
+    + apply emit_safe; [exact HS | apply r_text_safe, Hw].
+    + apply emit_safe; [exact HS | apply r_bytes_safe, Hw].
+    + apply emit_safe; [exact HN | apply r_date_safe, Hw].
+    + apply emit_safe; [exact HN | apply r_intv_safe, Hw].
+    + (* Struct *)
+      destruct (r_assert_safe T_STRUCT tag buf Hw) as (b & Eb & Hb). rewrite Eb.
+      destruct b.
+      2:{ cbn [fst snd]. split; [intros [E|[]]; discriminate | discriminate]. }
+      destruct (Hb eq_refl) as [Hne _].
+      pose proof (r_struct_enter_safe buf Hw Hne) as Hs.
+      destruct (do v <- r_value buf;; r_new v) as [sub| | |]; cbn [safe_res] in Hs; try contradiction.
+      2:{ cbn [fst snd]. split; [intros [E|[]]; discriminate | discriminate]. }
+      destruct (IH body sub Hs) as [Hn1 Hb1].
+      destruct (snd (run_ops f body sub)) as [bend|] eqn:Esnd.
+      * pose proof (r_next_safe buf Hw) as Hnx.
+        destruct (r_next buf) as [b'| | |]; cbn [safe_res] in Hnx; try contradiction; cbn [fst snd].
+        -- split.
+           ++ intros [E|Hin]; [discriminate|]. rewrite in_app_iff in Hin. destruct Hin as [Hin|[E|[]]]; [exact (Hn1 Hin) | discriminate].
+           ++ intros b0 E. injection E as <-. exact Hnx.
+        -- split.
+           ++ intros [E|Hin]; [discriminate|]. rewrite in_app_iff in Hin. destruct Hin as [Hin|[E|[]]]; [exact (Hn1 Hin) | discriminate].
+           ++ discriminate.
+      * cbn [fst snd]. split; [intros [E|Hin]; [discriminate | exact (Hn1 Hin)] | discriminate].
+Qed.
+
+(** C02 (binary reader): for EVERY byte string and EVERY script of reader operations, the
+    run never panics: NewTTLVDecoder validates or fails, every later operation finds its
+    slice bounds established by validate(). *)
+Theorem reader_never_panics : forall fuel ops bs, bytes_ok bs = true -> ~ In RPanic (run_script fuel ops bs).
+Proof.
+  intros fuel ops bs Hb. unfold run_script.
+  destruct (r_new_total bs Hb) as [(b & E & Hw)|E]; rewrite E.
+  - apply run_ops_safe, Hw.
+  - intros [H|[]]; discriminate.
 Qed.
